@@ -84,8 +84,15 @@ func (c *Float) adaptiveEncoding(in []byte, out []byte) ([]byte, error) {
 			return
 		}
 
-		out, err = GorillaEncoding(in, out)
-		out = append(out[:1], out...)
+		var buf []byte
+		buf, err = GorillaEncoding(in, out)
+		if err != nil {
+			// the Gorilla encoder refuses a block whose running sum is NaN
+			// (e.g. +Inf and -Inf together); store such a block uncompressed
+			out, err = c.compressNull(in, out[:0]), nil
+			return
+		}
+		out = append(buf[:1], buf...)
 		out[0] = floatCompressedGorilla << 4
 	}()
 
